@@ -14,6 +14,41 @@ import copy, json, os, random, re, concurrent.futures as cf
 from lib.common import cstr, run_cases, coq_eval, REPO
 from lib import impl
 
+import contextlib, signal
+
+
+@contextlib.contextmanager
+def deadline(sec):
+    """a hang of the implementation (e.g. a reference cycle without guard) becomes a TimeoutError instead of a hung check"""
+    def onalarm(signum, frame):
+        raise TimeoutError("implementation did not return within %ds" % sec)
+    old = signal.signal(signal.SIGALRM, onalarm)
+    signal.alarm(sec)
+    try:
+        yield
+    finally:
+        signal.alarm(0)
+        signal.signal(signal.SIGALRM, old)
+
+
+def gen_dl(doc, sec=60):
+    """impl.Gen under a deadline; a timeout is recorded as the generator's exception"""
+    try:
+        with deadline(sec):
+            return impl.Gen(doc)
+    except TimeoutError as e:
+        class _G:
+            exc = e
+            errors = []
+            out = None
+            def files(self): return {}
+            def diag(self): return []
+            def close(self): pass
+            def __enter__(self): return self
+            def __exit__(self, *a): pass
+        return _G()
+
+
 HDR = r"""Require Import OPC.gen.GenParams OPC.Uni OPC.Refs.
 Open Scope N_scope.
 Definition pref_eqb (a b : pref_result) : bool :=
@@ -172,8 +207,14 @@ def stage_b_bodies(run, tier):
             start = None if r < 0.05 else ("body", ci * 10 + 8) if r < 0.12 else ("ref", rand_body_ref(rng, names + ["Missing"]))
         mk = lambda e: oai.Reference.model_construct(ref=e[1]) if e[0] == "ref" else oai.RequestBody.model_construct(description=str(e[1]), content={})
         table = {k: mk(v) for k, v in comps.items()}
-        res = _resolve_reference(None if start is None else mk(start), table)
-        if res is None:
+        try:
+            with deadline(3):
+                res = _resolve_reference(None if start is None else mk(start), table)
+        except TimeoutError:
+            res = "hang"
+        if res == "hang":
+            obs = "BRFuel (* the implementation did not terminate *)"
+        elif res is None:
             obs = "BRNone"
         elif isinstance(res, ParseError):
             d = res.detail or ""
@@ -661,7 +702,7 @@ def work_meta(args):
     doc = gen_ops_doc(rng, hostile)
     out = {"seed": seed, "doc": doc, "cases": [], "error": None}
     try:
-        with impl.Gen(doc) as g0:
+        with gen_dl(doc) as g0:
             if g0.exc is not None:
                 out["error"] = "generate raised on the inline document: " + repr(g0.exc)
                 return out
@@ -673,7 +714,7 @@ def work_meta(args):
             k = len(pos) if ri == 0 else rng.randint(1, len(pos))
             chosen = rng.sample(pos, k)
             d1 = rewrite(doc, chosen, rng)
-            with impl.Gen(d1) as g1:
+            with gen_dl(d1) as g1:
                 case = {"positions": chosen, "n_positions": len(pos), "doc_ref": d1, "exc": repr(g1.exc) if g1.exc is not None else None}
                 f1, dg1 = g1.files(), sorted(g1.diag())
             case["first_diff"] = first_diff(f0, f1)
@@ -687,9 +728,10 @@ def work_meta(args):
                 for _, path, m, _ in case["noschema"]:
                     for mm in ([m] if m is not None else [x for x in list(d2["paths"][path]) if x != "parameters"]):
                         d2["paths"][path].pop(mm, None)
-                with impl.Gen(d2) as g2:
+                with gen_dl(d2) as g2:
                     f2 = g2.files()
-                case["noschema_explains"] = same_but_orphans(f2, f1)
+                # (model modules may keep what the dropped endpoint had already contributed, e.g. to_multipart: then they equal the inline document's version)
+                case["noschema_explains"] = same_but_orphans({k: v for k, v in f2.items() if not (k.startswith("models/") and f1.get(k) == f0.get(k))}, f1)
             case["n_endpoint_modules"] = sum(1 for k in f0 if k.startswith("api/") and not k.endswith("__init__.py"))
             out["cases"].append(case)
     except BaseException as e:  # noqa
@@ -716,7 +758,7 @@ def stage_c_meta(run, tier, replay_docs=None):
                 continue
             if c["first_diff"] is None and c["diag_same"]:
                 continue
-            if c["noschema"] and c.get("noschema_explains"):
+            if c["noschema"] and (c.get("noschema_explains") or c["first_diff"] is None):
                 if run.known_finding("param_ref_no_schema", "parameter without `schema` (described by `content`) at %s: written inline it is skipped silently, referenced from components/parameters "
                                      "the endpoint is dropped (first differing file %s)" % (c["noschema"][0], c["first_diff"])):
                     continue
@@ -812,9 +854,9 @@ def work_mal_ref(kind):
     """per position kind: output of the canonical-reference document and of the document without the item"""
     sec, name, _ = mal_forms(kind)
     good, deleted = malformed_docs(kind, f"#/components/{sec}/{name}")
-    with impl.Gen(deleted) as gd:
+    with gen_dl(deleted) as gd:
         fd, dd = gd.files(), gd.diag()
-    with impl.Gen(good) as gg:
+    with gen_dl(good) as gg:
         fg, dg = gg.files(), gg.diag()
     return kind, (fd, dd, fg, dg)
 
@@ -829,7 +871,7 @@ def work_mal(args):
             bad["components"][sec]["Loop"] = {"$ref": f"#/components/{sec}/Loop2"}
             bad["components"][sec]["Loop2"] = {"$ref": f"#/components/{sec}/Loop"}
         out["doc"], out["doc_deleted"] = bad, deleted
-        with impl.Gen(bad) as gb:
+        with gen_dl(bad) as gb:
             fb, db, eb = gb.files(), gb.diag(), gb.exc
         out["exc"] = repr(eb) if eb is not None else None
         out["n_diag_bad"], out["n_diag_deleted"], out["n_diag_good"] = len(db), len(dd), len(dg)
@@ -888,6 +930,239 @@ def stage_c_malformed(run, tier):
         run.violation("oracle", {**payload, "guards": g, "note": "malformed reference: " + ("no diagnostic" if r["n_diag_bad"] <= r["n_diag_deleted"] else "diagnostic present but other modules differ from the document without the item")})
 
 
+# ====================================================================================================================
+# stage C (2): schema positions by $ref vs an inline copy: same wire behaviour, one shared class
+# ====================================================================================================================
+T_MODEL = {"type": "object", "required": ["id"], "properties": {"id": {"type": "integer"}, "when": {"type": "string", "format": "date"}, "kind": {"$ref": SREF + "TEnum"},
+                                                                 "tags": {"type": "array", "items": {"type": "string"}}}}
+T_ENUM = {"type": "string", "enum": ["cat", "dog"]}
+TARGETS = {"TModel": T_MODEL, "TEnum": T_ENUM}
+M_INST = [{"id": 3, "when": "2020-01-01", "kind": "cat", "tags": ["a", "b"]}, {"id": 0}, {"id": 1, "zzz": True, "kind": "dog"}, {"id": 2, "kind": "bird"}, {"when": "2020-01-01"}, {"id": 4, "when": "nope"}]
+E_INST = ["cat", "dog", "bird", 5]
+# (position id, target, holder schema as a function of X, instances as a function of the target instance list)
+SCHEMA_POS = [
+    ("prop:TModel", "TModel", lambda X: {"type": "object", "required": ["p"], "properties": {"p": X, "n": {"type": "integer"}}}, lambda I: [{"p": i, "n": 1} for i in I] + [{"n": 1}]),
+    ("prop:TEnum", "TEnum", lambda X: {"type": "object", "required": ["p"], "properties": {"p": X}}, lambda I: [{"p": i} for i in I]),
+    ("optprop:TModel", "TModel", lambda X: {"type": "object", "properties": {"p": X}}, lambda I: [{"p": i} for i in I] + [{}]),
+    ("optprop:TEnum", "TEnum", lambda X: {"type": "object", "properties": {"p": X}}, lambda I: [{"p": i} for i in I] + [{}]),
+    ("items:TModel", "TModel", lambda X: {"type": "object", "properties": {"l": {"type": "array", "items": X}}}, lambda I: [{"l": I[:2]}, {"l": []}, {"l": [I[0], I[3]]}, {}]),
+    ("items:TEnum", "TEnum", lambda X: {"type": "object", "properties": {"l": {"type": "array", "items": X}}}, lambda I: [{"l": I[:2]}, {"l": [I[2]]}, {}]),
+    ("union:TModel", "TModel", lambda X: {"type": "object", "properties": {"u": {"anyOf": [X, {"type": "integer"}]}}}, lambda I: [{"u": i} for i in I] + [{"u": 5}, {}]),
+    ("union:TEnum", "TEnum", lambda X: {"type": "object", "properties": {"u": {"oneOf": [X, {"type": "integer"}]}}}, lambda I: [{"u": i} for i in I] + [{}]),
+    ("nullable:TModel", "TModel", lambda X: {"type": "object", "properties": {"p": {"anyOf": [X, {"type": "null"}]}}}, lambda I: [{"p": i} for i in I[:3]] + [{"p": None}, {}]),
+    ("addl:TModel", "TModel", lambda X: {"type": "object", "additionalProperties": X}, lambda I: [{"a": I[0], "b": I[1]}, {}, {"a": I[3]}]),
+    ("addl:TEnum", "TEnum", lambda X: {"type": "object", "properties": {"fixed": {"type": "string"}}, "additionalProperties": X}, lambda I: [{"a": I[0], "fixed": "f"}, {"a": I[2]}, {}]),
+    ("allof:TModel", "TModel", lambda X: {"allOf": [X, {"type": "object", "properties": {"extra": {"type": "string"}}}]}, lambda I: [{**i, "extra": "e"} for i in I] + I[:2]),
+    ("default:TEnum", "TEnum", lambda X: {"type": "object", "properties": {"k": ({"allOf": [X], "default": "dog"} if "$ref" in X else {**X, "default": "dog"})}}, lambda I: [{"k": i} for i in I] + [{}]),
+]
+EP_POS = ["param-query:TEnum", "param-header:TEnum", "param-query-list:TEnum", "body-json:TModel", "body-form:TModel", "response:TModel", "response-list:TModel"]
+
+
+def holder_name(pid):
+    return "H" + "".join(w.capitalize() for w in re.split(r"[:\-]", pid))
+
+
+def schema_doc(inline_positions):
+    """the document with target schemas used by $ref everywhere except at the positions listed (an inline copy there)"""
+    X = lambda pid, t: copy.deepcopy(TARGETS[t]) if pid in inline_positions else {"$ref": SREF + t}
+    S = {"TModel": copy.deepcopy(T_MODEL), "TEnum": copy.deepcopy(T_ENUM)}
+    for pid, t, mk, _ in SCHEMA_POS:
+        S[holder_name(pid)] = mk(X(pid, t))
+    paths = {}
+    for pid in EP_POS:
+        kind, t = pid.split(":")
+        x = X(pid, t)
+        op = {"operationId": "op_" + kind.replace("-", "_"), "tags": ["t"], "responses": {"200": {"description": "ok"}}}
+        if kind.startswith("param"):
+            loc = "header" if "header" in kind else "query"
+            op["parameters"] = [{"name": "k", "in": loc, "required": True, "schema": {"type": "array", "items": x} if kind.endswith("list") else x}]
+        elif kind == "body-json":
+            op["requestBody"] = {"required": True, "content": {"application/json": {"schema": x}}}
+        elif kind == "body-form":
+            op["requestBody"] = {"required": True, "content": {"application/x-www-form-urlencoded": {"schema": x}}}
+        elif kind == "response":
+            op["responses"]["200"]["content"] = {"application/json": {"schema": x}}
+        else:
+            op["responses"]["200"]["content"] = {"application/json": {"schema": {"type": "array", "items": x}}}
+        paths["/" + kind] = {("post" if kind.startswith("body") else "get"): op}
+    return {"openapi": "3.1.0", "info": {"title": "t", "version": "1"}, "paths": paths, "components": {"schemas": S}}
+
+
+def strip_cls(x):
+    if isinstance(x, dict):
+        return {k: strip_cls(v) for k, v in x.items() if k not in ("cls", "parsed_cls")}
+    if isinstance(x, list):
+        return [strip_cls(v) for v in x]
+    return x
+
+
+def wire_view(r):
+    """what the two clients must agree on: decoded structure modulo class names, re-encoded JSON, exception types, captured requests"""
+    v = {}
+    for k in ("obj", "out", "py_equal", "dumps_ok", "redecode_equal", "requests", "result"):
+        if k in r:
+            v[k] = strip_cls(r[k])
+    for k in ("dec_exc", "enc_exc", "exc", "redecode_exc", "fatal_op"):
+        if k in r:
+            v[k] = r[k].get("type")
+    return v
+
+
+def schema_ops(doc):
+    """client operations for one document; class names of parameters / bodies come from this document's own parse"""
+    data, _ = impl.parse_doc(doc)
+    eps = {e.name: e for c in data.endpoint_collections_by_tag.values() for e in c.endpoints}
+    classes = {str(m.class_info.name) for m in data.models} | {str(e.class_info.name) for e in data.enums}
+    ops, labels = [], []
+    for pid, t, _, mki in SCHEMA_POS:
+        h = holder_name(pid)
+        if h not in classes:
+            labels.append((pid, "missing-class"))
+            ops.append({"op": "signature", "module": "models", "name": h})
+            continue
+        for j in mki(M_INST if t == "TModel" else E_INST):
+            ops.append({"op": "roundtrip", "cls": h, "data": j})
+            labels.append((pid, json.dumps(j)))
+        if pid.startswith("default"):
+            ops.append({"op": "construct", "cls": h, "kwargs": {}})
+            labels.append((pid, "construct()"))
+    def pcls(ep, attr):
+        props = getattr(eps[ep], attr)
+        p = props[0] if attr != "bodies" else props[0].prop
+        inner = getattr(p, "inner_property", None) or p
+        return str(inner.class_info.name)
+    for pid in EP_POS:
+        kind, t = pid.split(":")
+        name = "op_" + kind.replace("-", "_")
+        mod = "api.t." + name
+        if name not in eps:
+            labels.append((pid, "missing-endpoint"))
+            ops.append({"op": "signature", "module": "api.t", "name": name})
+            continue
+        if kind.startswith("param"):
+            cls = pcls(name, "header_parameters" if "header" in kind else "query_parameters")
+            for v in ("cat", "dog"):
+                arg = {"@enum": [cls, v]}
+                ops.append({"op": "call", "module": mod, "variant": "sync_detailed", "kwargs": {"k": [arg, {"@enum": [cls, "cat"]}] if kind.endswith("list") else arg}, "response": {"status": 200}})
+                labels.append((pid, v))
+        elif kind.startswith("body"):
+            cls = pcls(name, "bodies")
+            for j in M_INST[:3]:
+                ops.append({"op": "call", "module": mod, "variant": "sync_detailed", "kwargs": {"body": {"@model": [cls, j]}}, "response": {"status": 200}})
+                labels.append((pid, json.dumps(j)))
+        else:
+            for j in M_INST:
+                ops.append({"op": "call", "module": mod, "variant": "sync_detailed", "kwargs": {}, "response": {"status": 200, "json": [j, M_INST[0]] if kind.endswith("list") else j}})
+                labels.append((pid, json.dumps(j)))
+    return ops, labels, classes
+
+
+def work_schema(args):
+    seed, inline = args
+    out = {"inline": sorted(inline), "error": None}
+    try:
+        doc = schema_doc(set(inline))
+        out["doc"] = doc
+        with gen_dl(doc) as g:
+            if g.exc is not None:
+                out["error"] = "generate raised " + repr(g.exc)
+                return out
+            out["diag"] = [list(x) for x in g.diag()]
+            ops, labels, classes = schema_ops(doc)
+            res = impl.run_client(g.out, ops, timeout=300)
+            files = g.files()
+        if isinstance(res, dict):
+            out["error"] = "runner: " + res.get("fatal", "")[:600]
+            return out
+        out["views"] = [wire_view(r) for r in res]
+        out["raw_cls"] = [[r.get("obj"), r.get("result")] for r in res]
+        out["labels"] = labels
+        out["classes"] = sorted(classes)
+        out["model_files"] = {k: v.decode("utf-8", "replace") for k, v in files.items() if k.startswith("models/") or k.startswith("api/t/")}
+    except BaseException as e:  # noqa
+        import traceback
+        out["error"] = "harness worker: " + repr(e) + traceback.format_exc()[-800:]
+    return out
+
+
+def classes_in(x, acc):
+    if isinstance(x, dict):
+        if x.get("t") in ("obj", "enum") and "cls" in x:
+            acc.add(x["cls"])
+        for v in x.values():
+            classes_in(v, acc)
+    elif isinstance(x, list):
+        for v in x:
+            classes_in(v, acc)
+    return acc
+
+
+def stage_c_schemas(run, tier):
+    rng = run.rng
+    allpos = [p[0] for p in SCHEMA_POS] + EP_POS
+    subsets = [[]] + [[p] for p in allpos] + [list(allpos)]
+    for _ in range(4 if tier == "quick" else 60):
+        subsets.append(sorted(rng.sample(allpos, rng.randint(2, len(allpos) - 1))))
+    if tier == "quick":
+        subsets = subsets[:1] + rng.sample(subsets[1:len(allpos) + 1], 9) + subsets[len(allpos) + 1:]
+    with cf.ProcessPoolExecutor(max_workers=14) as ex:
+        results = list(ex.map(work_schema, [(i, s) for i, s in enumerate(subsets)]))
+    ref = results[0]
+    if ref["error"]:
+        run.violation("harness-or-generator", {"error": ref["error"], "doc": ref.get("doc")})
+        return
+    # ---- one shared class per referenced schema (all-by-reference document)
+    expected = {"TModel", "TEnum"} | {holder_name(p[0]) for p in SCHEMA_POS}
+    share_case = {"check": "shared-class", "classes": ref["classes"]}
+    run.note_case(share_case, nontrivial=True, kind="shared-class")
+    if set(ref["classes"]) != expected:
+        run.violation("oracle", {"doc": ref["doc"], "classes": ref["classes"], "expected": sorted(expected), "diagnostics": ref["diag"],
+                                 "note": "all-by-reference document: the generated classes are not exactly one per component schema (a reference minted a second class, or a holder was dropped)"})
+    mods = ref["model_files"]
+    defs = {t: [k for k, v in mods.items() if re.search(r"^class %s\b" % t, v, re.M)] for t in ("TModel", "TEnum")}
+    for t, where in defs.items():
+        if where != ["models/" + {"TModel": "t_model", "TEnum": "t_enum"}[t] + ".py"]:
+            run.violation("oracle", {"doc": ref["doc"], "target": t, "defined_in": where, "note": "referenced schema is not defined in exactly one module"})
+    for pid, t, _, _ in SCHEMA_POS:
+        if pid.startswith("allof"):
+            continue
+        hm = "models/" + re.sub(r"(?<!^)(?=[A-Z])", "_", holder_name(pid)).lower() + ".py"
+        src = next((v for k, v in mods.items() if k.replace("_", "") == hm.replace("_", "")), "")
+        imp = "from ..models.%s import %s" % ({"TModel": "t_model", "TEnum": "t_enum"}[t], t)
+        run.note_case({"check": "import", "holder": holder_name(pid)}, nontrivial=True, kind="shared-class")
+        if imp not in src:
+            run.violation("oracle", {"doc": ref["doc"], "holder": holder_name(pid), "expected_import": imp, "note": "holder module does not import the single shared class of the referenced schema"})
+    for pid in EP_POS:
+        kind, t = pid.split(":")
+        src = mods.get("api/t/op_%s.py" % kind.replace("-", "_"), "")
+        imp = "from ...models.%s import %s" % ({"TModel": "t_model", "TEnum": "t_enum"}[t], t)
+        if imp not in src:
+            run.violation("oracle", {"doc": ref["doc"], "endpoint": pid, "expected_import": imp, "note": "endpoint module does not import the single shared class of the referenced schema"})
+    # decoded values are instances of the shared class (by name) wherever a target value was decoded
+    for (pid, lab), raw in zip(ref["labels"], ref["raw_cls"]):
+        seen = classes_in(raw, set())
+        extra = seen - expected
+        if extra:
+            run.violation("oracle", {"doc": ref["doc"], "position": pid, "instance": lab, "classes_seen": sorted(seen), "note": "a value decoded through a reference is an instance of a class other than the shared one"})
+    # ---- same wire behaviour for every subset of positions written inline
+    for r in results[1:]:
+        case = {"inline_positions": r["inline"]}
+        if r["error"]:
+            run.violation("harness-or-generator", {**case, "error": r["error"], "doc": r.get("doc")})
+            continue
+        if r["labels"] != ref["labels"] or len(r["views"]) != len(ref["views"]):
+            missing = [l for l in r["labels"] if l[1].startswith("missing")] + [l for l in ref["labels"] if l[1].startswith("missing")]
+            run.note_case(case, nontrivial=True, kind="schema-wire")
+            run.violation("oracle", {**case, "doc": r["doc"], "doc_ref": ref["doc"], "missing": missing[:5], "diagnostics": r["diag"][:4], "diagnostics_ref": ref["diag"][:4],
+                                     "note": "a class / endpoint exists in only one of the two documents (inline copy vs reference)"})
+            continue
+        for (pid, lab), a, b in zip(r["labels"], r["views"], ref["views"]):
+            run.note_case({**case, "position": pid, "instance": lab}, nontrivial=pid in r["inline"], kind="schema-wire:" + pid.split(":")[0])
+            if a != b:
+                run.violation("oracle", {**case, "doc": r["doc"], "doc_ref": ref["doc"], "position": pid, "instance": lab, "inline_client": a, "reference_client": b,
+                                         "first_differing_file": None, "note": "same JSON through the client generated from the inline copy and from the $ref behaves differently on the wire"})
+
+
 def stage_b(run, tier):
     terms, meta = [], []
     for f in (stage_b_refstrings, stage_b_bodies, stage_b_params, stage_b_responses):
@@ -904,8 +1179,80 @@ def stage_b(run, tier):
     return bad
 
 
+
+def stage_c_witnesses(run):
+    """fixed witnesses of the two findings the random streams may miss; KNOWN-FINDING is printed only if the defect is still there"""
+    op = lambda params: {"operationId": "opx", "parameters": params, "responses": {"200": {"description": "ok"}}}
+    qc = {"name": "q", "in": "query", "content": {"application/json": {"schema": {"type": "string"}}}}
+    with gen_dl(impl.base_doc(paths={"/x": {"get": op([qc])}})) as gi, \
+            gen_dl(impl.base_doc(paths={"/x": {"get": op([{"$ref": "#/components/parameters/Q"}])}}, components={"parameters": {"Q": qc}})) as gr:
+        fi, fr = gi.files(), gr.files()
+        run.note_case({"witness": "param_ref_no_schema"}, kind="witness")
+        if fi != fr:
+            if not ("api/default/opx.py" in fi and "api/default/opx.py" not in fr and
+                    run.known_finding("param_ref_no_schema", "witness: query parameter described by `content`: inline -> endpoint generated without it, by reference -> endpoint dropped")):
+                run.violation("oracle", {"witness": "param_ref_no_schema", "first_differing_file": first_diff(fi, fr), "note": "unexpected shape of the listed finding"})
+    comps = {"parameters": {"a\tb": {"name": "first", "in": "query", "schema": {"type": "integer"}}, "ab": {"name": "second", "in": "query", "schema": {"type": "string"}}}}
+    with gen_dl(impl.base_doc(paths={"/x": {"get": op([{"$ref": "#/components/parameters/ab"}])}}, components=comps)) as gr, \
+            gen_dl(impl.base_doc(paths={"/x": {"get": op([comps["parameters"]["ab"]])}})) as gi:
+        fi, fr = gi.files(), gr.files()
+        run.note_case({"witness": "param_key_ctrl_collision"}, kind="witness")
+        if fi != fr:
+            if not (b"first" in fr.get("api/default/opx.py", b"") and
+                    run.known_finding("param_key_ctrl_collision", "witness: components/parameters keys `a<TAB>b` and `ab`: the reference to `ab` generates the parameter of `a<TAB>b`")):
+                run.violation("oracle", {"witness": "param_key_ctrl_collision", "first_differing_file": first_diff(fi, fr), "note": "unexpected shape of the listed finding"})
+
+
+def replay_cases(run, replay):
+    """re-run the inputs of a replay file written by a previous run"""
+    rp = json.load(open(replay))
+    for v in rp.get("violations", []):
+        if "doc" in v and "doc_ref" in v and "rewritten_positions" in v:
+            with gen_dl(v["doc"]) as g0, gen_dl(v["doc_ref"]) as g1:
+                f0, f1 = g0.files(), g1.files()
+                run.note_case({"replay": v["rewritten_positions"]}, kind="replay")
+                if f0 != f1 or g1.exc is not None:
+                    run.violation("oracle", {"doc": v["doc"], "doc_ref": v["doc_ref"], "rewritten_positions": v["rewritten_positions"], "first_differing_file": first_diff(f0, f1),
+                                             "note": "replayed: inline and by-reference documents generate different output"})
+        elif "doc" in v and "doc_deleted" in v:
+            with gen_dl(v["doc"]) as gb, gen_dl(v["doc_deleted"]) as gd:
+                run.note_case({"replay": v.get("ref")}, kind="replay")
+                if gb.exc is not None or not same_but_orphans(gd.files(), gb.files()) or len(gb.diag()) <= len(gd.diag()):
+                    run.violation("oracle", {k: v[k] for k in ("doc", "doc_deleted", "position", "form", "ref") if k in v} | {"note": "replayed: malformed reference not contained / not diagnosed"})
+        elif "inline_positions" in v:
+            res = [work_schema((0, [])), work_schema((1, v["inline_positions"]))]
+            run.note_case({"replay": v["inline_positions"]}, kind="replay")
+            if res[0]["error"] or res[1]["error"] or res[0]["views"] != res[1]["views"]:
+                run.violation("oracle", {"inline_positions": v["inline_positions"], "doc": res[1].get("doc"), "note": "replayed: inline copy and reference differ on the wire"})
+        elif "term" in v:
+            bad = run_cases(HDR, [v["term"]])
+            run.note_case({"replay": v["term"][:200]}, kind="replay")
+            if bad:
+                run.violation("correspondence", {k: v[k] for k in v if k not in ("kind", "no_failing_input_found")})
+
+
 def run(run, tier, replay=None):
+    run.rule = ("stage B: hostile reference strings (15 malformed forms x sections + random strings over a URL-syntax alphabet); random request-body tables (chains of canonical references to "
+                "length 6 ending in a body / a miss / a cycle, and random tables with remote / wrong-section / bare / percent-encoded / trailing-slash references); random component-parameter "
+                "tables (odd keys, parameters with and without schema, top-level references, all 13 Parameter fields) with operation-level and path-item-level lists mixing references and "
+                "inline parameters; random response tables. Stage C: (1) random documents (parameters in all four locations at both levels, json/form/multipart/octet/unsupported bodies, 1-3 "
+                "statuses) x random subsets of positions moved to components/* (shared components, body chains to length 6, shuffled sections): whole tree compared byte for byte; (2) 20 schema "
+                "positions x {model, enum} by $ref vs inline copy, random subsets inline: round trips and endpoint calls of both generated clients compared, one class per referenced schema; "
+                "(3) 15-16 malformed reference forms x 12 position kinds: diagnostic + containment against the document without the item. A case is one (input, observation); non-trivial = "
+                "a reference is actually followed / a position actually rewritten; distinct by hash of the input.")
+    if replay:
+        replay_cases(run, replay)
+        return
     if os.environ.get("C20_SKIP_B") != "1":
         stage_b(run, tier)
+    stage_c_witnesses(run)
     stage_c_meta(run, tier)
     stage_c_malformed(run, tier)
+    stage_c_schemas(run, tier)
+    run.assumptions += [
+        "harness/translate/gen_params.py (ast reading of parameter_from_data / add_parameters / _property_from_ref / response_from_data / build_parameters; urllib.parse tables of the running interpreter)",
+        "the abstraction of property_from_data / validate_location / _check_parameters_for_conflicts as the parameters build / validate / finish of Refs.add_loop (the theorems hold for ALL such functions; "
+        "stage B instantiates them with a table read from the real property classes)",
+        "urlsplit authority validation for bracketed hosts and non-ASCII authorities is outside the model (PRUnmodelled; such cases are compared by outcome only)",
+        "schema-reference behaviour (class evolution, dependency recording, default re-validation) is covered by the regenerated evolve-field fact + executed-client comparison, not by a model of property_from_data",
+        "harness/lib/client_runner.py (serialises run-time values, captures requests through httpx.MockTransport)"]
